@@ -1914,24 +1914,20 @@ impl Context {
         if len == 0 {
             return (Arc::new(Value::None), unit!(), vec![]);
         }
-        let alloc_insert_point = self.get_current_basicblock().0.len();
-        let dst = self.gen_new_register();
+        // Allocate before the elements are evaluated: an element containing an `if` moves to another
+        // basic block, so an insertion index taken here would afterwards point into the wrong block.
+        let dst = self.push_inst(Instruction::Alloc(alloc_ty));
         let mut states = vec![];
         for (i, e) in items.iter().enumerate() {
             let (v, elem_ty, s) = self.eval_expr(*e);
             let ptr = self.push_inst(Instruction::GetElement {
                 value: dst.clone(),
-                ty: alloc_ty, // lazyly set after loops,
+                ty: alloc_ty,
                 tuple_offset: i as u64,
             });
             states.extend(s);
             self.push_inst(Instruction::Store(ptr, v, elem_ty));
         }
-        self.get_current_basicblock().0.insert(
-            alloc_insert_point,
-            (dst.clone(), Instruction::Alloc(alloc_ty)),
-        );
-
         // pass only the head of the tuple, and the length can be known
         // from the type information.
         (dst, alloc_ty, states)
